@@ -328,6 +328,8 @@ pub struct Diag {
     pub error: bool,
     pub code: String,
     pub message: String,
+    /// "file:row:col" of the primary span, if the diagnostic has one
+    pub location: String,
 }
 
 /// Parses the diagnostic stream (stderr) in either format. Lines that are not diagnostic headers are ignored
@@ -335,11 +337,16 @@ pub struct Diag {
 pub fn parse_diagnostics(stderr: &[u8], json: bool) -> Vec<Diag> {
     let text = String::from_utf8_lossy(stderr);
     let mut out = Vec::new();
+    let mut expecting_location = false;
     for line in text.lines() {
         if json {
             if let Ok(v) = serde_json::from_str::<serde_json::Value>(line) {
                 if let (Some(sev), Some(msg)) = (v.get("severity").and_then(|s| s.as_str()), v.get("message").and_then(|s| s.as_str())) {
-                    out.push(Diag { error: sev == "error", code: v.get("error_code").and_then(|s| s.as_str()).unwrap_or("").to_owned(), message: msg.to_owned() });
+                    let location = match v.get("span") {
+                        Some(sp) if !sp.is_null() => format!("{}:{}:{}", sp["file"].as_str().unwrap_or(""), sp["start"]["row"], sp["start"]["col"]),
+                        _ => String::new(),
+                    };
+                    out.push(Diag { error: sev == "error", code: v.get("error_code").and_then(|s| s.as_str()).unwrap_or("").to_owned(), message: msg.to_owned(), location });
                 }
             }
         } else {
@@ -347,9 +354,22 @@ pub fn parse_diagnostics(stderr: &[u8], json: bool) -> Vec<Diag> {
             for (prefix, error) in [("error [", true), ("warning [", false)] {
                 if let Some(rest) = clean.strip_prefix(prefix) {
                     if let Some((code, msg)) = rest.split_once("]: ") {
-                        out.push(Diag { error, code: code.to_owned(), message: msg.to_owned() });
+                        out.push(Diag { error, code: code.to_owned(), message: msg.to_owned(), location: String::new() });
+                        expecting_location = true;
+                        continue;
                     }
                 }
+            }
+            // the snippet header right after a diagnostic header: " --> file:row:col" (notes have their own, later)
+            if let Some(loc) = clean.strip_prefix(" --> ") {
+                if expecting_location {
+                    if let Some(d) = out.last_mut() {
+                        d.location = loc.trim().to_owned();
+                    }
+                }
+            }
+            if !clean.starts_with("error [") && !clean.starts_with("warning [") {
+                expecting_location = false;
             }
         }
     }
